@@ -23,6 +23,7 @@ type cenv struct {
 	inOld bool
 	bound map[string]Val // quantifier-bound variables
 	depth int
+	applied bool // the contract is being applied at a call site (not verified)
 }
 
 const sUntyped = "untyped-int"
@@ -403,6 +404,9 @@ func (c *cenv) binary(n *ast.BinaryExpr) Val {
 	switch n.Op {
 	case token.LAND:
 		a := c.eval(n.X)
+		if a.T == "false" {
+			return termVal(boolT, sBool, "false")
+		}
 		b := c.eval(n.Y)
 		return termVal(boolT, sBool, tAnd(a.T, b.T))
 	case token.LOR:
@@ -597,6 +601,21 @@ func (c *cenv) call(n *ast.CallExpr) Val {
 		}
 	}
 	if id, ok := n.Fun.(*ast.Ident); ok {
+		if c.applied {
+			// ghost call-log builtins talk about the callee's own execution: unknown to the caller
+			switch id.Name {
+			case "callsok":
+				return termVal(boolT, sBool, e.D.fresh("callee_callsok", sBool))
+			case "ncalls":
+				return termVal(types.Typ[types.Int], bvSort(64), e.D.fresh("callee_ncalls", bvSort(64)))
+			case "callpre", "callpost":
+				if compID, ok := n.Args[1].(*ast.Ident); ok {
+					return Val{K: kTerm, Sort: e.compSort(compID.Name), T: e.D.fresh("callee_"+id.Name, e.compSort(compID.Name))}
+				}
+			case "callres":
+				return c.errf("callres cannot be used in a contract that is applied at call sites")
+			}
+		}
 		switch id.Name {
 		case "old":
 			if c.pre == nil {
@@ -610,6 +629,9 @@ func (c *cenv) call(n *ast.CallExpr) Val {
 			return v
 		case "implies":
 			a := c.evalBool(n.Args[0])
+			if a == "false" {
+				return termVal(boolT, sBool, "true")
+			}
 			b := c.evalBool(n.Args[1])
 			return termVal(boolT, sBool, tImplies(a, b))
 		case "iff":
@@ -686,6 +708,111 @@ func (c *cenv) call(n *ast.CallExpr) Val {
 			// BV (unsigned) to mathematical Int
 			v := c.eval(n.Args[0])
 			return Val{K: kTerm, Sort: sInt, T: tApp("bv2nat", e.term(c.st(), v)), Typ: mathIntType()}
+		case "callpre", "callpost":
+			// callpre("Callee", comp) / callpost("Callee", comp): value of a world component right before / after
+			// the last contracted call of Callee on this path (current value if no such call happened).
+			nameV := c.eval(n.Args[0])
+			callee, _ := e.litContent(nameV.T)
+			compID, ok := n.Args[1].(*ast.Ident)
+			if !ok {
+				return c.errf("%s: second argument must be a component name", id.Name)
+			}
+			var rec *CallRec
+			for i := len(c.post.calls) - 1; i >= 0; i-- {
+				if lastName(c.post.calls[i].Name) == callee {
+					rec = &c.post.calls[i]
+					break
+				}
+			}
+			if rec == nil || rec.PreW == nil {
+				// no such call on this path: use any context parameter's current value
+				for _, v := range c.vars {
+					if v.K == kCtx {
+						return Val{K: kTerm, Sort: e.compSort(compID.Name), T: e.readComp(c.post, v.World, compID.Name)}
+					}
+				}
+				if v, ok := c.lookupVar("ctx"); ok && v.K == kCtx {
+					return Val{K: kTerm, Sort: e.compSort(compID.Name), T: e.readComp(c.post, v.World, compID.Name)}
+				}
+				return c.errf("%s: no context in scope", id.Name)
+			}
+			if id.Name == "callpre" {
+				return Val{K: kTerm, Sort: e.compSort(compID.Name), T: rec.PreW[compID.Name]}
+			}
+			return Val{K: kTerm, Sort: e.compSort(compID.Name), T: rec.PostW[compID.Name]}
+		case "callsok":
+			// callsok("Callee"): every call of Callee recorded since the last loop entry returned a nil error
+			nameV := c.eval(n.Args[0])
+			callee, _ := e.litContent(nameV.T)
+			var cj []string
+			for i := c.post.loopMark; i < len(c.post.calls); i++ {
+				r := c.post.calls[i]
+				if lastName(r.Name) != callee {
+					continue
+				}
+				res := r.Res
+				if res.K == kTuple && len(res.Elems) > 0 {
+					res = res.Elems[len(res.Elems)-1]
+				}
+				if res.K == kTerm && res.Sort == sIface {
+					cj = append(cj, tEq(res.T, "nilI"))
+				}
+			}
+			return termVal(boolT, sBool, tAnd(cj...))
+		case "ncalls":
+			// ncalls("Callee"): number of recorded calls since the last loop entry (a Go int)
+			nameV := c.eval(n.Args[0])
+			callee, _ := e.litContent(nameV.T)
+			cnt := 0
+			for i := c.post.loopMark; i < len(c.post.calls); i++ {
+				if lastName(c.post.calls[i].Name) == callee {
+					cnt++
+				}
+			}
+			return termVal(types.Typ[types.Int], bvSort(64), bvLit(uint64(cnt), 64))
+		case "callres":
+			// callres("Callee", i): i-th result of the last recorded call of Callee on this path
+			nameV := c.eval(n.Args[0])
+			callee, _ := e.litContent(nameV.T)
+			idx := 0
+			if len(n.Args) > 1 {
+				iv := c.eval(n.Args[1])
+				fmt.Sscanf(iv.T, "%d", &idx)
+			}
+			for i := len(c.post.calls) - 1; i >= 0; i-- {
+				r := c.post.calls[i]
+				if lastName(r.Name) != callee {
+					continue
+				}
+				if r.Res.K == kTuple {
+					if idx < len(r.Res.Elems) {
+						return r.Res.Elems[idx]
+					}
+					return c.errf("callres: result index out of range")
+				}
+				return r.Res
+			}
+			return c.errf("callres: no call of %s on this path (guard the clause with ncalls/callsok)", callee)
+		case "unchanged":
+			// unchanged(ctx, except...): every world component except the event log (and the listed ones) equals its old value
+			v := c.eval(n.Args[0])
+			if v.K != kCtx || c.pre == nil {
+				return c.errf("unchanged(ctx) needs a context and a pre-state")
+			}
+			except := map[string]bool{}
+			for _, a := range n.Args[1:] {
+				if id2, ok := a.(*ast.Ident); ok {
+					except[id2.Name] = true
+				}
+			}
+			var cj []string
+			for _, comp := range e.allComps() {
+				if comp == "events" || except[comp] {
+					continue
+				}
+				cj = append(cj, tEq(e.readComp(c.post, v.World, comp), e.readComp(c.pre, v.World, comp)))
+			}
+			return termVal(boolT, sBool, tAnd(cj...))
 		case "blocktime":
 			v := c.eval(n.Args[0])
 			return e.blockTime(c.st(), v)
@@ -1021,22 +1148,36 @@ func (c *cenv) runSpec(f func(st *State) []Out, name string) Val {
 	if len(good) == 0 {
 		return c.errf("specification call %s has no normal outcome", name)
 	}
-	adopt := func(o Out) {
+	nDefs0, nPC0 := len(base.defs), len(base.pc)
+	adopt := func(o Out, withPC bool) {
 		for id, v := range o.st.cells {
 			if _, ok := base.cells[id]; !ok {
 				base.cells[id] = v
 			}
+			if c.post != nil && c.post != base {
+				if _, ok := c.post.cells[id]; !ok {
+					c.post.cells[id] = v
+				}
+			}
 		}
-		for _, d := range o.st.defs[len(base.defs):] {
-			base.defs = append(base.defs, d)
+		var facts []string
+		if len(o.st.defs) > nDefs0 {
+			facts = append(facts, o.st.defs[nDefs0:]...)
+		}
+		if withPC && len(o.st.pc) > nPC0 {
+			// single feasible outcome: its path facts are facts about the fresh result symbols
+			facts = append(facts, o.st.pc[nPC0:]...)
+		}
+		for _, d := range facts {
+			base.define(d)
+			if c.post != nil && c.post != base {
+				c.post.define(d)
+			}
 		}
 	}
 	if len(good) == 1 {
 		o := good[0]
-		ndefs := len(base.defs)
-		adopt(o)
-		_ = ndefs
-		// branch conditions of a single feasible path are facts established by construction
+		adopt(o, true)
 		return o.res
 	}
 	// merge by ite over path conditions
@@ -1044,7 +1185,7 @@ func (c *cenv) runSpec(f func(st *State) []Out, name string) Val {
 	var res Val
 	for i := len(good) - 1; i >= 0; i-- {
 		o := good[i]
-		adopt(o)
+		adopt(o, false)
 		cond := tAnd(o.st.pc[n0:]...)
 		if i == len(good)-1 {
 			res = c.termify(o.st, o.res)
